@@ -132,7 +132,7 @@ inductive Err
   | invalidAddress | invalidAddress64Bit | invalidAddress64BitZeroExtension | invalidOperandSize | invalidState
   | invalidUseOfGpq | invalidUseOfGpbHi | invalidImmediate | invalidLockPrefix | invalidPrefixCombination
   | invalidXAcquirePrefix | invalidXReleasePrefix | invalidRepPrefix | invalidKZeroUse | invalidEROrSAE
-  | invalidExtraReg | invalidKMaskUse
+  | invalidExtraReg | invalidKMaskUse | invalidRexPrefix
   deriving DecidableEq, Repr
 
 def Err.name : Err → String
@@ -145,7 +145,7 @@ def Err.name : Err → String
   | .invalidPrefixCombination => "InvalidPrefixCombination" | .invalidXAcquirePrefix => "InvalidXAcquirePrefix"
   | .invalidXReleasePrefix => "InvalidXReleasePrefix" | .invalidRepPrefix => "InvalidRepPrefix"
   | .invalidKZeroUse => "InvalidKZeroUse" | .invalidEROrSAE => "InvalidEROrSAE" | .invalidExtraReg => "InvalidExtraReg"
-  | .invalidKMaskUse => "InvalidKMaskUse"
+  | .invalidKMaskUse => "InvalidKMaskUse" | .invalidRexPrefix => "InvalidRexPrefix"
 
 /-- an `Operand_` as far as `validate` looks at it -/
 inductive Operand
@@ -255,30 +255,36 @@ def validAddr16 (btype bid itype iid shift : Nat) : Bool :=
     let r := if hasB then bid else iid
     r ≥ virtIdMin || bxbp r || sidi r
 
+/-- an error code that is not `Ok`: what the operand translation can fail with (so that "the validator answered Ok"
+    can only come from the end of `validate`, by construction) -/
+abbrev ErrNZ := { e : Err // e ≠ .ok }
+
+def bad {α : Type} (e : Err) (h : e ≠ .ok := by decide) : Except ErrNZ α := .error ⟨e, h⟩
+
 /-- translation of one operand: `Except error (op_flags, reg_mask (32 bit), contribution to combined_reg_mask)`;
     `avx` / `iflags` = the instruction's `_avx512_flags` / `_flags` -/
-def translateOp (mode avx iflags enc : Nat) : Operand → Except Err (Nat × Nat × Nat)
-  | .none => .error .invalidState      -- not reached: the loop stops at the first `none`
-  | .other => .error .invalidState
+def translateOp (mode avx iflags enc : Nat) : Operand → Except ErrNZ (Nat × Nat × Nat)
+  | .none => bad .invalidState      -- not reached: the loop stops at the first `none`
+  | .other => bad .invalidState
   | .label => .ok (fRel8 ||| fRel32, 0, 0)
   | .imm v => .ok (immFlags v, 0, 0)
   | .reg t id =>
     let fl := opFlagOfRegType t
-    if fl = 0 then .error .invalidRegType
+    if fl = 0 then bad .invalidRegType
     else if id < virtIdMin then
-      if id ≥ 32 then .error .invalidPhysId
-      else if !test (allowedRegMask mode t) (bit id) then .error .invalidPhysId
+      if id ≥ 32 then bad .invalidPhysId
+      else if !test (allowedRegMask mode t) (bit id) then bad .invalidPhysId
       else .ok (fl, bit id, bit id)
-    else .error .illegalVirtReg
+    else bad .illegalVirtReg
   | .mem size btype bid itype iid shift off seg bcst =>
-    if seg > 6 then .error .invalidSegment else
+    if seg > 6 then bad .invalidSegment else
     -- AVX-512 broadcast {1toN}
-    let bc : Except Err Nat :=
+    let bc : Except ErrNZ Nat :=
       if bcst ≠ 0 then
-        if !test avx (avxB16 ||| avxB32 ||| avxB64) then .error .invalidBroadcast   -- (fixes/C13-2) instruction has no broadcast
+        if !test avx (avxB16 ||| avxB32 ||| avxB64) then bad .invalidBroadcast   -- (fixes/C13-2) instruction has no broadcast
         else if size ≠ 0 then
-          if test avx avxB32 && size ≠ 4 then .error .invalidBroadcast
-          else if test avx avxB64 && size ≠ 8 then .error .invalidBroadcast
+          if test avx avxB32 && size ≠ 4 then bad .invalidBroadcast
+          else if test avx avxB64 && size ≠ 8 then bad .invalidBroadcast
           else .ok (size <<< bcst)
         else .ok ((if test avx avxB64 then 8 else if test avx avxB32 then 4 else 2) <<< bcst)
       else .ok size
@@ -286,22 +292,22 @@ def translateOp (mode avx iflags enc : Nat) : Operand → Except Err (Nat × Nat
     | .error e => .error e
     | .ok memSize =>
     -- base
-    let base : Except Err (Nat × Nat × Nat) :=          -- (flags, reg_mask, combined)
+    let base : Except ErrNZ (Nat × Nat × Nat) :=          -- (flags, reg_mask, combined)
       if btype ≠ rtNone ∧ btype > rtLabelTag then
-        if !test (allowedBase mode) (bit btype) then .error .invalidAddress
+        if !test (allowedBase mode) (bit btype) then bad .invalidAddress
         else if bid < virtIdMin then
-          if bid ≥ 32 then .error .invalidPhysId
-          else if !test (allowedRegMask mode btype) (bit bid) then .error .invalidPhysId     -- (fixes/C13-3)
+          if bid ≥ 32 then bad .invalidPhysId
+          else if !test (allowedRegMask mode btype) (bit bid) then bad .invalidPhysId     -- (fixes/C13-3)
           else .ok (if itype = rtNone ∧ off % 0x100000000 = 0 then fFlagMemBase else 0, bit bid, bit bid)
-        else .error .illegalVirtReg
+        else bad .illegalVirtReg
       else if btype = rtLabelTag then .ok (0, 0, 0)
       else
         -- absolute address
         if !isInt32 off then
-          if mode = 1 then (if !isUInt32 off then .error .invalidAddress64Bit else .ok (0, 0, 0))
+          if mode = 1 then (if !isUInt32 off then bad .invalidAddress64Bit else .ok (0, 0, 0))
           else if itype ≠ rtNone then
-            if !isUInt32 off then .error .invalidAddress64Bit
-            else if itype ≠ rtGp32 then .error .invalidAddress64BitZeroExtension
+            if !isUInt32 off then bad .invalidAddress64Bit
+            else if itype ≠ rtGp32 then bad .invalidAddress64BitZeroExtension
             else .ok (0, 0, 0)
           else .ok (0, 0, 0)
         else .ok (0, 0, 0)
@@ -309,33 +315,33 @@ def translateOp (mode avx iflags enc : Nat) : Operand → Except Err (Nat × Nat
     | .error e => .error e
     | .ok (bfl, bmask, bcomb) =>
     -- index
-    let index : Except Err (Nat × Nat × Nat) :=
+    let index : Except ErrNZ (Nat × Nat × Nat) :=
       if itype ≠ rtNone then
-        if !test (allowedIndex mode) (bit itype) then .error .invalidAddress
+        if !test (allowedIndex mode) (bit itype) then bad .invalidAddress
         else
           let fl := bfl |||
             (if itype = rtVec128 then fVm32x ||| fVm64x else if itype = rtVec256 then fVm32y ||| fVm64y
              else if itype = rtVec512 then fVm32z ||| fVm64z else if btype ≠ rtNone then fFlagMib else 0)
-          if btype = rtPC ∧ test fl fVmMask then .error .invalidAddress
+          if btype = rtPC ∧ test fl fVmMask then bad .invalidAddress
           -- (fixes/C13-4) [RIP|LABEL + INDEX] in 64-bit mode, vector index without VSIB, ESP|RSP as index
-          else if mode ≠ 1 ∧ (btype = rtPC ∨ btype = rtLabelTag) then .error .invalidAddress
-          else if test fl fVmMask && !test iflags ifVsib then .error .invalidAddress
-          else if !test fl fVmMask && itype != rtGp16 && iid == gpIdSp then .error .invalidAddress
+          else if mode ≠ 1 ∧ (btype = rtPC ∨ btype = rtLabelTag) then bad .invalidAddress
+          else if test fl fVmMask && !test iflags ifVsib then bad .invalidAddress
+          else if !test fl fVmMask && itype != rtGp16 && iid == gpIdSp then bad .invalidAddress
           else if iid < virtIdMin then
-            if iid ≥ 32 then .error .invalidPhysId
-            else if !test (allowedRegMask mode itype) (bit iid) then .error .invalidPhysId     -- (fixes/C13-3)
+            if iid ≥ 32 then bad .invalidPhysId
+            else if !test (allowedRegMask mode itype) (bit iid) then bad .invalidPhysId     -- (fixes/C13-3)
             else .ok (fl, 0, bcomb ||| bit iid)
-          else .error .illegalVirtReg
+          else bad .illegalVirtReg
       else .ok (bfl, bmask, bcomb)
     match index with
     | .error e => .error e
     | .ok (fl, mask, comb) =>
       -- (fixes/C13-11) movabs has only the moffs form: no base, no index
-      if enc = encMovabs ∧ (btype ≠ rtNone ∨ itype ≠ rtNone) then .error .invalidAddress else
+      if enc = encMovabs ∧ (btype ≠ rtNone ∨ itype ≠ rtNone) then bad .invalidAddress else
       -- (fixes/C13-5) 16-bit addressing forms
-      if (btype = rtGp16 ∨ itype = rtGp16) ∧ !validAddr16 btype bid itype iid shift then .error .invalidAddress else
+      if (btype = rtGp16 ∨ itype = rtGp16) ∧ !validAddr16 btype bid itype iid shift then bad .invalidAddress else
       match memSizeFlag memSize with
-      | none => .error .invalidOperandSize
+      | none => bad .invalidOperandSize
       | some sf => .ok (fl ||| sf, mask, comb)
 
 /-- `check_op_sig(op, ref, imm_out_of_range)`: returns (accepted, imm_out_of_range') -/
@@ -410,7 +416,7 @@ def firstNone : List Operand → Nat
   | .none :: _ => 0
   | _ :: r => firstNone r + 1
 
-def translateAll (mode avx iflags enc : Nat) : List Operand → Except Err (List (Nat × Nat) × Nat × Nat)
+def translateAll (mode avx iflags enc : Nat) : List Operand → Except ErrNZ (List (Nat × Nat) × Nat × Nat)
   | [] => .ok ([], 0, 0)
   | o :: r =>
     match translateOp mode avx iflags enc o with
@@ -426,14 +432,12 @@ def lastMemBase : List Operand → Option Nat
   | .mem _ bt .. :: r => (match lastMemBase r with | some b => some b | none => some bt)
   | _ :: r => lastMemBase r
 
-/-- `validate()` after `inst_info_by_id`: everything it does with the instruction's data `R` -/
-def validateR (R : ResolvedInst) (inst : Inst) (operands : List Operand) : Err :=
+/-- stage 1 of `validate()`: the LOCK/XACQUIRE/XRELEASE and REP/REPNE prefix tests -/
+def prefixStage (R : ResolvedInst) (inst : Inst) (operands : List Operand) : Err :=
   let iflags := R.iflags
-  let avx := R.avx
   let options := inst.options
   let kRepAny := optRep ||| optRepne
   let kXAcqXRel := optXAcquire ||| optXRelease
-  let kAvx512Options := optZMask ||| optER ||| optSAE
   -- LOCK | XACQUIRE | XRELEASE
   let e1 : Err :=
     if test options (optLock ||| kXAcqXRel) then
@@ -459,27 +463,43 @@ def validateR (R : ResolvedInst) (inst : Inst) (operands : List Operand) : Err :
       if options &&& kRepAny = kRepAny then .invalidPrefixCombination
       else if !test iflags ifRep then .invalidRepPrefix else .ok
     else .ok
-  if e2 ≠ .ok then e2 else
-  -- operands -> signatures (stops at the first `none`; everything after it must be `none`)
+  e2
+
+/-- stage 2: operands -> signatures (stops at the first `none`; everything after it must be `none`) and the mode-specific
+    register tests; yields the translated signatures, `combined_op_flags` and `combined_reg_mask` -/
+def sigStage (R : ResolvedInst) (inst : Inst) (operands : List Operand) : Except ErrNZ (List (Nat × Nat) × Nat × Nat) :=
+  let mode := inst.mode
+  let options := inst.options
   let n := firstNone operands
   let given := operands.take n
-  match translateAll mode avx iflags R.enc given with
-  | .error e => e
+  match translateAll mode R.avx R.iflags R.enc given with
+  | .error e => .error e
   | .ok (sigs, combinedFlags, combinedRegMask) =>
-  if (operands.drop n).any (· != .none) then .invalidInstruction else
+  if (operands.drop n).any (· != .none) then bad .invalidInstruction else
   -- mode specific
-  let e3 : Err :=
-    if mode = 1 then (if test combinedFlags fRegGpq then .invalidUseOfGpq else .ok)
-    else
-      let hasRex := test options optRex || combinedRegMask &&& 0xFFFFFF00 != 0
-      if hasRex && test combinedFlags fRegGpbHi then .invalidUseOfGpbHi else .ok
-  if e3 ≠ .ok then e3 else
-  -- signatures
-  let e4 : Err :=
-    if R.rows.isEmpty then .ok else
-    let (m, g) := matchSignatures mode sigs R.rows false
-    if m then .ok else if g then .invalidImmediate else .invalidInstruction
-  if e4 ≠ .ok then e4 else
+  if mode = 1 then
+    if test combinedFlags fRegGpq then bad .invalidUseOfGpq
+    -- (fixes/C13-3) there is no REX prefix in 32-bit mode
+    else if test options optRex then bad .invalidRexPrefix
+    else .ok (sigs, combinedFlags, combinedRegMask)
+  else
+    let hasRex := test options optRex || combinedRegMask &&& 0xFFFFFF00 != 0
+    if hasRex && test combinedFlags fRegGpbHi then bad .invalidUseOfGpbHi else .ok (sigs, combinedFlags, combinedRegMask)
+
+/-- stage 3: the instruction's signature rows against the translated operands -/
+def matchStage (R : ResolvedInst) (mode : Nat) (sigs : List (Nat × Nat)) : Err :=
+  if R.rows.isEmpty then .ok else
+  let (m, g) := matchSignatures mode sigs R.rows false
+  if m then .ok else if g then .invalidImmediate else .invalidInstruction
+
+/-- stage 4: encoding-specific tests, EVEX-only resources, AVX-512 options, {extra} register -/
+def tailStage (R : ResolvedInst) (inst : Inst) (operands : List Operand) (combinedFlags : Nat) : Err :=
+  let iflags := R.iflags
+  let avx := R.avx
+  let options := inst.options
+  let kRepAny := optRep ||| optRepne
+  let kAvx512Options := optZMask ||| optER ||| optSAE
+  let given := operands.take (firstNone operands)
   -- (fixes/C13-11) the X86Op encoding class has implicit operands only: no explicit immediate
   if R.enc == encX86Op && test combinedFlags fImmMask then .invalidInstruction else
   -- (fixes/C13-7) vp2intersectd|q write an aligned pair of mask registers
@@ -538,8 +558,17 @@ def validateR (R : ResolvedInst) (inst : Inst) (operands : List Operand) : Err :
       else if eid = 0 || !test avx avxK then .invalidKMaskUse
       else .ok
     else .invalidExtraReg
-where
-  mode := inst.mode
+
+/-- `validate()` after `inst_info_by_id`: everything it does with the instruction's data `R`, stage by stage in the order of
+    the C++ (each stage returns the first error it meets) -/
+def validateR (R : ResolvedInst) (inst : Inst) (operands : List Operand) : Err :=
+  let e12 := prefixStage R inst operands
+  if e12 ≠ .ok then e12 else
+  match sigStage R inst operands with
+  | .error e => e.1
+  | .ok (sigs, combinedFlags, _) =>
+    let e4 := matchStage R inst.mode sigs
+    if e4 ≠ .ok then e4 else tailStage R inst operands combinedFlags
 
 def validate (T : SigTables) (inst : Inst) (operands : List Operand) : Err :=
   match resolve T inst.id with
